@@ -13,6 +13,16 @@ for f in sorted(glob.glob(os.path.join(V, "seeded", "*", "meta.json"))):
         res.append("%s: %d/%d seeds%s" % (chk, len(hit), len(rs), (" (" + ", ".join(str(k) for k in kinds[:3]) + ")") if kinds else ""))
     ok = "yes" if m.get("demo_clean_pass") and m.get("demo_changed_fails") else "NO (clean=%s changed_fails=%s)" % (m.get("demo_clean_pass"), m.get("demo_changed_fails"))
     rows.append("| `%s` | %s | %s | %s | %s |" % (name, m["property"], ok, "; ".join(res) or "-", ", ".join(m.get("detected_by") or []) or "**missed**"))
-print("| seeded change | property | demonstration confirmed | checks run against it (quick tier) | caught by |")
-print("|---|---|---|---|---|")
-print("\n".join(rows))
+out = []
+out.append("| seeded change | property | demonstration confirmed | checks run against it (quick tier) | caught by |")
+out.append("|---|---|---|---|---|")
+out += rows
+import re, sys
+txt = "\n".join(out)
+if "--design" in sys.argv:
+    p = os.path.join(V, "DESIGN.md")
+    s = open(p).read()
+    s = re.sub(r"<!-- SEEDTABLE-BEGIN -->.*<!-- SEEDTABLE-END -->", lambda m: "<!-- SEEDTABLE-BEGIN -->\n" + txt + "\n<!-- SEEDTABLE-END -->", s, flags=re.S)
+    open(p, "w").write(s)
+else:
+    print(txt)
